@@ -1267,3 +1267,33 @@ Lemma all_dot_mapper_sets_one_attribute : forall k v d,
 Proof.
   intros k v d. exact (conj (dset_get_same k v d) (conj (fun k2 => dset_get_other k v d k2) (dset_keys k v d))).
 Qed.
+
+(* ------------- the edges agree with the parent query of Nav.v (C10) *)
+From NT Require Nav NavProofs.
+
+Lemma edges_agree_with_parent_query root p c : NoDup (ids_t root) -> In (p, c) (desc_p root) ->
+  exists cx, Nav.locate_f (rid c) (rch root) = Some cx /\ Nav.c_self cx = c /\
+             Nav.q_parent cx = if same_node p root then None else Some p.
+Proof.
+  intros H Hpc.
+  pose proof (NoDup_ids_t_children root H) as Hf.
+  pose proof (desc_p_child_below root p c Hpc) as Hc.
+  destruct (NavProofs.locate_f_self (rch root) c Hf Hc) as [cx [Hl [Hs Hok]]].
+  exists cx. split; [exact Hl|]. split; [exact Hs|].
+  pose proof (NavProofs.parent_child (rch root) cx Hok) as PC.
+  destruct Hok as [Hchain Hin].
+  unfold Nav.q_parent in *. destruct (hd_error (Nav.c_anc cx)) as [p'|] eqn:Hd.
+  - destruct PC as [Hcp _]. rewrite Hs in Hcp.
+    assert (Hp' : In p' (pre_f (rch root))).
+    { apply (NavProofs.chain_anc_in_pre (rch root) _ _ Hchain). destruct (Nav.c_anc cx); [discriminate|]. injection Hd as ->. now left. }
+    assert (E : p' = p).
+    { apply (desc_p_parent_unique root p' p c H); [|exact Hpc]. apply desc_p_in. split; [|exact Hcp].
+      rewrite pre_unfold. now right. }
+    subst p'. assert (N : same_node p root = false).
+    { unfold same_node. apply Nat.eqb_neq. now apply below_not_self. }
+    now rewrite N.
+  - destruct PC as [Hcf _]. rewrite Hs in Hcf.
+    assert (E : root = p).
+    { apply (desc_p_parent_unique root root p c H); [|exact Hpc]. apply desc_p_in. split; [apply pre_in_self|exact Hcf]. }
+    subst p. unfold same_node. now rewrite Nat.eqb_refl.
+Qed.
